@@ -20,7 +20,7 @@ def parse(path):
             if p[0] == "case": cur = p[1]; res[cur] = {"_done": False}; order.append(cur)
             elif p[0] == "endcase":
                 if cur is not None: res[cur]["_done"] = True
-            elif p[0] in ("o", "s") and cur is not None and len(p) >= 3:
+            elif p[0] in ("o", "s", "i") and cur is not None and len(p) >= 3:
                 key = (p[0], p[1], p[2]); k2 = key; n = 0
                 while k2 in res[cur]: n += 1; k2 = (p[0], p[1], p[2] + "#%d" % n)
                 res[cur][k2] = p[3:]
@@ -49,9 +49,10 @@ def cmp_tokens(a, b, tol):
     if worst: return "token %d: %s vs %s (|diff| %.3g, scale %.3g, tol %.1g)" % (worst[1], worst[2], worst[3], worst[0], scale, tol)
     return None
 
-def compare(impl_path, model_path, tol=1e-9, tol_solve=1e-7, skip_labels=()):
+def compare(impl_path, model_path, tol=1e-9, tol_solve=1e-7, skip_labels=(), cond_max=1e6):
     impl, order = parse(impl_path); model, _ = parse(model_path)
-    rep = {"cases": len(order), "corr_lines": 0, "oracle_lines": 0, "corr_mismatch": [], "oracle_mismatch": [], "crashed": [], "incomplete": []}
+    rep = {"cases": len(order), "corr_lines": 0, "oracle_lines": 0, "corr_mismatch": [], "oracle_mismatch": [], "crashed": [], "incomplete": [],
+           "discarded_ill_conditioned": 0, "max_cond": 0.0}
     for c in order:
         I = impl[c]; M = model.get(c)
         if M is None: rep["incomplete"].append(c); continue
@@ -63,6 +64,12 @@ def compare(impl_path, model_path, tol=1e-9, tol_solve=1e-7, skip_labels=()):
             if base in skip_labels: continue
             if base == "crash": rep["crashed"].append(c); continue
             t = tol_solve if base in SOLVE_LABELS else tol
+            if base in SOLVE_LABELS and ("i", seq, "cond") in M:
+                cnd = tonum(M[("i", seq, "cond")][0])
+                if cnd is None or not math.isfinite(cnd) or cnd > cond_max:
+                    rep["discarded_ill_conditioned"] += 1; continue
+                rep["max_cond"] = max(rep["max_cond"], cnd)
+                t = t * max(1.0, cnd / 100.0)
             mk = ("o", seq, label)
             if mk in M:
                 rep["corr_lines"] += 1
@@ -76,7 +83,7 @@ def compare(impl_path, model_path, tol=1e-9, tol_solve=1e-7, skip_labels=()):
                 d = cmp_tokens(toks, M[sk], t)
                 if d: rep["oracle_mismatch"].append({"case": c, "seq": int(seq), "label": label, "why": d})
         for key in M:
-            if key != "_done" and key[0] == "o" and key not in I:
+            if key != "_done" and key[0] == "o" and key not in I and key[2].split("#")[0] not in skip_labels:
                 rep["corr_mismatch"].append({"case": c, "seq": int(key[1]), "label": key[2], "why": "missing on the implementation side"})
     return rep
 
